@@ -11,6 +11,8 @@ POOL = [
     ("1", ("arith", 1)), ("0x1", ("arith", 1)), ("01", ("arith", 1)), ("0b1", ("arith", 1)), ("3", ("arith", 3)), ("0x3", ("arith", 3)),
     ("-1", ("arith", -1)), ("0", ("arith", 0)), ("0xffffffffffffffff", ("arith", 2**64 - 1)), ("[7, 8] elem pos (== 1)", ("arith", 1)),
     ("\"abc\" length", ("arith", 3)), ("0 1 aset low", ("arith", 0)),
+    # the same numbers in the other internal representation (a difference is signed), and the middle of the range
+    ("5 5 sub", ("arith", 0)), ("-3 4 add", ("arith", 1)), ("0x8000000000000000", ("arith", 2**63)), ("-9223372036854775808", ("arith", -2**63)),
     ("true", ("named", "bool", 1)), ("false", ("named", "bool", 0)), ("T_CONST", ("named", "T", 2)), ("T_STR", ("named", "T", 4)),
     ("DW_TAG_array_type", ("named", "TAG", 1)), ("DW_AT_sibling", ("named", "AT", 1)), ("DW_FORM_addr", ("named", "FORM", 1)),
     ("DW_AT_name", ("named", "AT", 3)), ("DW_TAG_subprogram", ("named", "TAG", 46)), ("DW_LANG_C89", ("named", "LANG", 1)),
